@@ -607,7 +607,86 @@ def run_split_rngs(ctx, i, rng):
     ctx.check(rngs.params.key.value.shape == () and nxt != before, 'split_rngs:stream_not_restored', lambda: dict(case=desc))
 
 
+def run_bare_variables(ctx, i, rng):
+  """The stateful arguments are bare nnx.Variables (no Module around them): per-index updates come back stacked from nnx.vmap, forward
+  side effects of nnx.grad / value_and_grad are applied once, scanned / carried Variables equal the loop - and a second call starts
+  from the state the first one left."""
+  import jax
+  import jax.numpy as jnp
+  from flax import nnx
+  kind = ['vmap', 'vmap_shared_param', 'grad', 'value_and_grad', 'scan_axis', 'scan_carry'][i % 6]
+  N = 2 + (i // 6) % 3
+  calls = 1 + (i // 18) % 2
+  desc = dict(kind=kind, n=N, calls=calls)
+  with ctx.case('bare_variables', i, desc, nontrivial=True):
+    class Count(nnx.Variable):
+      pass
+    nr = np.random.default_rng(i)
+    X = jnp.asarray(nr.uniform(0.5, 1.5, (N, 3)).astype(np.float32))
+    same = lambda a, b: bool(np.allclose(np.asarray(a), np.asarray(b), rtol=1e-5, atol=1e-5))  # noqa: E731
+
+    def body(w, total, x):
+      total.value = total.value + w.value * x
+      return total.value.sum()
+
+    if kind in ('vmap', 'vmap_shared_param'):
+      shared = kind == 'vmap_shared_param'
+      w0 = nr.uniform(1, 2, (3,) if shared else (N, 3)).astype(np.float32)
+      w, total = nnx.Param(jnp.asarray(w0)), Count(jnp.zeros((N, 3)))
+      ref_total = np.zeros((N, 3))
+      for c in range(calls):
+        y = nnx.vmap(body, in_axes=(None if shared else 0, 0, 0), out_axes=0)(w, total, X)
+        ctx.op('nnx.vmap(bare Variables)')
+        ref_total = ref_total + (w0[None] if shared else w0) * np.asarray(X)
+        ctx.check(same(y, ref_total.sum(-1)), 'bare_variables:vmap_output', lambda: dict(case=desc, call=c))
+        ctx.check(same(total.value, ref_total), 'bare_variables:vmap_update_lost', lambda: dict(case=desc, call=c, got=np.asarray(total.value).tolist()))
+    elif kind in ('grad', 'value_and_grad'):
+      p0 = nr.uniform(-2, 2, (3,)).astype(np.float32)
+      p, ncalls, seen = nnx.Param(jnp.asarray(p0)), Count(jnp.asarray(0.0)), Count(jnp.zeros((3,)))
+
+      def loss(p, ncalls, seen):
+        ncalls.value = ncalls.value + 1.0
+        seen.value = jnp.tanh(p.value)
+        return jnp.sum(p.value ** 3)
+      for c in range(calls):
+        if kind == 'grad':
+          g = nnx.grad(loss)(p, ncalls, seen)
+        else:
+          l, g = nnx.value_and_grad(loss)(p, ncalls, seen)
+          ctx.check(same(l, np.sum(p0.astype(np.float64) ** 3)), 'bare_variables:loss', lambda: dict(case=desc))
+        ctx.op('nnx.%s(bare Variables)' % kind)
+        ctx.check(same(g.value, 3 * p0.astype(np.float64) ** 2), 'bare_variables:gradient', lambda: dict(case=desc))
+        ctx.check(same(ncalls.value, c + 1.0) and same(seen.value, np.tanh(p0)), 'bare_variables:forward_side_effect_not_applied_once',
+                  lambda: dict(case=desc, call=c, calls_counter=float(ncalls.value)))
+    else:
+      w0 = nr.uniform(1, 2, (N, 3)).astype(np.float32)
+      w = nnx.Param(jnp.asarray(w0))
+      if kind == 'scan_axis':
+        total = Count(jnp.zeros((N, 3)))
+
+        @nnx.scan(in_axes=(nnx.Carry, 0, 0, 0), out_axes=(nnx.Carry, 0))
+        def f(c, w, total, x):
+          total.value = total.value + w.value * x + c
+          return c + 1.0, total.value.sum()
+        c_out, ys = f(jnp.asarray(0.0), w, total, X)
+        want = w0 * np.asarray(X) + np.arange(N)[:, None]
+        ctx.check(same(total.value, want) and same(ys, want.sum(-1)) and same(c_out, N), 'bare_variables:scan_axis_variable', lambda: dict(case=desc))
+      else:
+        acc = Count(jnp.zeros((3,)))
+
+        @nnx.scan(in_axes=(nnx.Carry, 0, 0), out_axes=(nnx.Carry, 0))
+        def f(acc, w, x):
+          acc.value = acc.value + w.value * x
+          return acc, acc.value.sum()
+        acc_out, ys = f(acc, w, X)
+        want = np.cumsum(w0 * np.asarray(X), axis=0)
+        ctx.check(same(acc.value, want[-1]) and same(ys, want.sum(-1)), 'bare_variables:scan_carry_variable', lambda: dict(case=desc))
+      ctx.op('nnx.scan(bare Variables)')
+
+
 def run(ctx):
+  for i in ctx.indices(36 if ctx.tier == 'quick' else 108, 'bare_variables'):
+    run_bare_variables(ctx, i, ctx.rng('bare_variables', i))
   for i in ctx.indices(110 if ctx.tier == 'quick' else 1600, 'vmap'):
     run_vmap(ctx, i, ctx.rng('vmap', i))
   for i in ctx.indices(110 if ctx.tier == 'quick' else 1600, 'scan'):
